@@ -21,6 +21,7 @@ import Driver.Aiff
 import Driver.Ledger
 import Driver.Meta
 import Driver.Ieee
+import Driver.Dwvw
 open Sf
 
 def lawOf (s : String) : Option G711.Law :=
@@ -86,4 +87,5 @@ def main (args : List String) : IO UInt32 := do
   | "ledger" :: _ => LedgerDriver.cmd
   | "meta" :: rest => do MetaCmd.run rest (← readLines)
   | "ieee" :: rest => Driver.Ieee.cmd rest
+  | "dwvw" :: rest => Driver.Dwvw.cmd rest
   | _ => IO.eprintln "usage: sfmodel <g711|...> ..."; return 2
